@@ -436,7 +436,7 @@ def oneshot_cases(ctx, maxshards=None):
             if line.startswith('<<"CASE", "'):
                 out.write(json.loads(line[len('<<"CASE", '):-2]) + "\n")
                 cnt += 1
-    rc, info, o = harness(["oneshot", "--cases", cases, "--outdir", ctx.dir, "--seed", ctx.seed])
+    rc, info, o = harness(["oneshot", "--cases", cases, "--outdir", ctx.dir, "--seed", ctx.seed, "--big-every", 3 if ctx.thorough else 9])
     log("[oneshot] %d cases, %d violations" % (info["cases"], len(info["violations"])))
     ctx.traces += info["cases"] - len(info["violations"])
     ctx.evaluations += info["cases"]
